@@ -69,6 +69,8 @@ func instances(c *core.Ctx) []*Instance {
 			&Instance{Name: "map-wrap", Kind: "map", NKeys: 3, Vals: []int{1, 2}, Hash: wrap3, Caps0: caps, MaxOps: 3},
 			&Instance{Name: "set-collide", Kind: "set", NKeys: 3, Vals: []int{1}, Hash: collide3, Caps0: caps, MaxOps: 4},
 			&Instance{Name: "set-wrap", Kind: "set", NKeys: 3, Vals: []int{1}, Hash: wrap3, Caps0: caps, MaxOps: 3},
+			// three colliding members, two removals, a lookup: the shortest history in which a probe run is cut behind two deleted slots
+			&Instance{Name: "set-collide5", Kind: "set", NKeys: 3, Vals: []int{1}, Hash: collide3, Caps0: [][2]int{{0, 0}}, MaxOps: 5},
 			&Instance{Name: "map-sim", Kind: "map", NKeys: 4, Vals: []int{1, 2}, Hash: []int{0, 5, M - 1, 0}, Caps0: [][2]int{{0, 0}, {2, 5}, {3, 1}}, MaxOps: 10, Simulate: 15},
 			&Instance{Name: "set-sim", Kind: "set", NKeys: 4, Vals: []int{1}, Hash: []int{0, 5, M - 1, 0}, Caps0: [][2]int{{0, 0}, {2, 5}, {3, 1}}, MaxOps: 10, Simulate: 15},
 		)
